@@ -82,6 +82,12 @@ def run(tier, seed, selftest=False, replay=None):
                 verdict.add(key, {"id": c["id"], "lang": c["lang"], "ct": c["ct"], "u": c["u"], "S": c["u"][i - 1], "T": c["u"][k - 1],
                                   "impl_says": [i, k] in c["rel"], "count_in_table": j["n"]},
                             "clause %s on S=%s T=%s (table %s)" % (clause, show(c["u"][i - 1]), show(c["u"][k - 1]), c["id"]))
+    ev = (0, 0, 0, None)
+    if not replay:
+        import ev_common
+        ev = ev_common.run_ev(PID, ["is_subtype"], tier, seed, verdict,
+                              describe=lambda e: "is_subtype(%s, %s) answered TRUE" % (show(e["S"]), show(e["T"])))
+        T("EV done")
     rc = verdict.finish()
     s_i, s_j = sample["rel"][len(sample["rel"]) // 2]
     write_evidence(PID, tier, seed, "model_checking", {
@@ -94,6 +100,9 @@ def run(tier, seed, selftest=False, replay=None):
                 "is_subtype/is_assignable are evaluated on all |U|^2 ordered pairs per table and language; evaluations = pairs judged by TLC "
                 "(Sound, Exact on the fragment, Reflexive, Transitive, BottomBelowAll), distinct_nontrivial = pairs the implementation answers TRUE",
         "tables": len(cases), "exhaustive": tier != "quick",
+        "ev_generator_queries": {"programs": ev[0], "distinct_positive_answers_judged": ev[1], "not_judgeable": ev[2],
+                                 "note": "outermost positive is_subtype answers issued while real programs were generated and mutated, judged Sound "
+                                         "against the completed class table (HEvTrace)"},
     }, time.time() - t0, len(verdict.violations),
         ["class tables are completed before types are built (types captured while a class is under construction are covered by the EV part)",
          "invariant slots compare by syntactic identity"])
